@@ -239,6 +239,13 @@ def handle (op : String) (args : List String) : Option String :=
     let t ← parseTypeStr t
     let e ← parseExpStr e
     pure (boolStr (wt t.base t.arrayDim t.mapDim e) ++ " " ++ boolStr (intsOk e))
+  | "bindok", [t, a] => do
+    -- the hypotheses of binding_roundtrip on a real binding: `<wt | splitOperandOk> <intsOk>`
+    let t ← parseTypeStr t
+    let a ← parseArgStr a
+    pure (match a with
+      | .plain e => boolStr (wt t.base t.arrayDim t.mapDim e) ++ " " ++ boolStr (intsOk e)
+      | .split e => boolStr (splitOperandOk t e) ++ " " ++ boolStr (intsOk e))
   | "fltint", [f] => do
     let f ← parseFlt f
     pure ("text=" ++ (if f.textAsInt then "int " ++ showInt f.intVal else "float")
